@@ -195,6 +195,99 @@ Proof. exact (untimed_overflow sh Hfirst). Qed.
 
 End C15.
 
+(* ---------------- the mode CLASS: inherited states ----------------
+   A mode is a Python class; [m : mro] lists the bodies of type(self).__mro__,
+   most derived first.  A state may be defined in the concrete class or in any
+   base class (e.g. a shared "settle -> shoot" tail in a common base mode), and
+   a subclass may redefine a name.  [class_getattr m n] is getattr(cls, n);
+   [build_states inf m] is the constructor's state discovery (__build_states):
+   [inr sh] = the mode object exists and runs as the machine [sh] of the
+   theorems above; [inl _] = ValueError.  [is_first m n]: getattr(cls, n) is a
+   state declared first=True;  [is_state m n]: it is a state at all. *)
+
+(* The constructor succeeds exactly when the class has one first state --
+   counting inherited states, and not counting definitions a subclass has
+   replaced ... *)
+Theorem C15_ctor_constructs : forall inf m,
+  (exists sh, build_states inf m = inr sh) <->
+  (exists f, is_first m f = true /\ forall n, is_first m n = true -> n = f).
+Proof. exact build_states_constructs. Qed.
+
+Theorem C15_ctor_rejects_no_first : forall inf m,
+  build_states inf m = inl NoFirst <-> forall n, is_first m n = false.
+Proof. exact build_states_no_first. Qed.
+
+Theorem C15_ctor_rejects_multiple_first : forall inf m,
+  build_states inf m = inl MultipleFirst <->
+  exists a b, a <> b /\ is_first m a = true /\ is_first m b = true.
+Proof. exact build_states_multiple_first. Qed.
+
+Section C15_mode.
+Variable inf : Z.
+Variable m : mro.
+Variable sh : shape.
+Hypothesis Hbuilt : build_states inf m = inr sh.
+
+(* ... and then the machine's states are EXACTLY the states of the class:
+   every name that getattr(cls, .) resolves to a state -- defined in the
+   concrete class or inherited from a base at any depth -- is a state of the
+   mode with the declaration (default duration, next_state) of its most derived
+   definition, so its "<MODE_NAME>\<s>_duration" entry is among those read at
+   on_enable; nothing else is; the first state is the class's first state; the
+   hypothesis of the theorems of Section C15 holds. *)
+Theorem C15_mode_states_are_class_states :
+  (forall n, lookup sh n = state_decl (class_getattr m n)) /\
+  is_first m (sh_first sh) = true /\
+  (forall n, is_first m n = true -> n = sh_first sh) /\
+  declared sh (sh_first sh) = true /\
+  sh_inf sh = inf.
+Proof. exact (build_states_ok inf m sh Hbuilt). Qed.
+
+(* The clauses again, with every hypothesis about a state read from the class
+   ([mode_duration inf m d s]: dashboard value of s in a period enabled with d,
+   else the default of the most derived definition of s, wherever it is). *)
+Theorem C15_mode_first_runs : forall h d tm b,
+  is_first m (sh_first sh) = true /\
+  calls (iter_after sh (h ++ [OnEnable d]) tm b) = [EvCall (sh_first sh) tm 0 true].
+Proof. exact (mode_first_runs inf m sh Hbuilt). Qed.
+
+Theorem C15_mode_holds_until_expiry : forall h s st0 d tm b,
+  status_tr (trace sh h) = Running s ->
+  last_call_start (trace sh h) None = Some (s, st0) ->
+  last_dash h None = Some d ->
+  tm <= st0 + mode_duration inf m d s ->
+  calls (iter_after sh h tm b) = [EvCall s tm (tm - st0) false] /\
+  status_tr (trace sh (h ++ [OnIteration tm b])) =
+    status_acts sh (b s tm (tm - st0) false) (Running s).
+Proof. exact (mode_holds_until_expiry inf m sh Hbuilt). Qed.
+
+Theorem C15_mode_hands_over_at_expiry : forall h s st0 d tm b dflt n f,
+  status_tr (trace sh h) = Running s ->
+  last_call_start (trace sh h) None = Some (s, st0) ->
+  last_dash h None = Some d ->
+  st0 + mode_duration inf m d s < tm ->
+  class_getattr m s = Some (AState (Timed dflt (Some n)) f) -> is_state m n = true ->
+  let expiry := st0 + mode_duration inf m d s in
+  exists rest,
+    iter_after sh h tm b = EvEnter (Some n) :: EvCall n tm (tm - expiry) true :: rest /\
+    calls rest = [] /\
+    status_tr (trace sh (h ++ [OnIteration tm b])) =
+      status_acts sh (b n tm (tm - expiry) true) (Running n) /\
+    last_call_start (trace sh (h ++ [OnIteration tm b])) None = Some (n, expiry).
+Proof. exact (mode_hands_over_at_expiry inf m sh Hbuilt). Qed.
+
+Theorem C15_mode_last_state_expires : forall h s st0 d tm b dflt f,
+  status_tr (trace sh h) = Running s ->
+  last_call_start (trace sh h) None = Some (s, st0) ->
+  last_dash h None = Some d ->
+  st0 + mode_duration inf m d s < tm ->
+  class_getattr m s = Some (AState (Timed dflt None) f) ->
+  iter_after sh h tm b = [EvEnter None] /\
+  status_tr (trace sh (h ++ [OnIteration tm b])) = Ended.
+Proof. exact (mode_last_state_expires inf m sh Hbuilt). Qed.
+
+End C15_mode.
+
 (* The pre-repair expiry test (no `ran` guard) violates the property: D6. *)
 Theorem C15_legacy_refuted_D6 :
   exists sh h s tm b,
@@ -259,6 +352,37 @@ Example C15_nv_trace_p1 :
    EvCall 0%nat 400 152 true; EvCall 1%nat 416 104 true].
 Proof. vm_compute. reflexivity. Qed.
 
+(* a mode CLASS with inheritance: the concrete class defines drive (3): timed
+   1 s -> settle, first, and REPLACES the base's old first state (6) by a plain
+   attribute; its base defines settle (4): timed 0.5 s -> shoot, shoot (5):
+   timed 0.75 s, and that old first state 6; a grand-base defines another
+   settle (4, 2 s, no successor) which the base's definition hides. *)
+Definition ex_mro : mro :=
+  [ [(3%nat, AState (Timed 64 (Some 4%nat)) true); (6%nat, AOther)];
+    [(4%nat, AState (Timed 32 (Some 5%nat)) false); (5%nat, AState (Timed 48 None) false);
+     (6%nat, AState Untimed true)];
+    [(4%nat, AState (Timed 128 None) false); (7%nat, AOther)] ].
+Definition ex_msh : shape :=
+  {| sh_states := [(3%nat, Timed 64 (Some 4%nat)); (5%nat, Timed 48 None); (4%nat, Timed 32 (Some 5%nat))];
+     sh_first := 3%nat; sh_inf := 4294967295 * 64 |}.
+Example C15_nv_mode_built : build_states (4294967295 * 64) ex_mro = inr ex_msh.
+Proof. vm_compute. reflexivity. Qed.
+(* settle is inherited, its dashboard entry edited to 0.25 s: it is held until
+   64 + 16 and hands over to the inherited shoot with the clock at 80 *)
+Definition ex_mdash : name -> option Z := fun s => if Nat.eqb s 4 then Some 16 else None.
+Example C15_nv_mode_trace :
+  calls (trace ex_msh (OnEnable ex_mdash :: map (fun t => OnIteration t (fun _ _ _ _ => [])) [0; 64; 65; 80; 81; 128; 129])) =
+  [EvCall 3%nat 0 0 true; EvCall 3%nat 64 64 false; EvCall 4%nat 65 1 true; EvCall 4%nat 80 16 false;
+   EvCall 5%nat 81 1 true; EvCall 5%nat 128 48 false] /\
+  mode_duration (4294967295 * 64) ex_mro ex_mdash 4%nat = 16 /\
+  class_getattr ex_mro 4%nat = Some (AState (Timed 32 (Some 5%nat)) false) /\ is_state ex_mro 5%nat = true.
+Proof. vm_compute. repeat split; reflexivity. Qed.
+(* without the subclass's replacement of 6 the class has two first states *)
+Example C15_nv_mode_two_firsts :
+  build_states (4294967295 * 64) ([(3%nat, AState (Timed 64 (Some 4%nat)) true)] :: tl ex_mro) = inl MultipleFirst /\
+  build_states (4294967295 * 64) [[(4%nat, AState (Timed 32 None) false)]] = inl NoFirst.
+Proof. vm_compute. split; reflexivity. Qed.
+
 Print Assumptions C15_first_runs.
 Print Assumptions C15_holds_until_expiry.
 Print Assumptions C15_hands_over_at_expiry.
@@ -277,4 +401,12 @@ Print Assumptions C15_status_observable.
 Print Assumptions C15_running_has_clock.
 Print Assumptions C15_expiry_observable.
 Print Assumptions C15_untimed_overflow.
+Print Assumptions C15_ctor_constructs.
+Print Assumptions C15_ctor_rejects_no_first.
+Print Assumptions C15_ctor_rejects_multiple_first.
+Print Assumptions C15_mode_states_are_class_states.
+Print Assumptions C15_mode_first_runs.
+Print Assumptions C15_mode_holds_until_expiry.
+Print Assumptions C15_mode_hands_over_at_expiry.
+Print Assumptions C15_mode_last_state_expires.
 Print Assumptions C15_legacy_refuted_D6.
